@@ -230,7 +230,13 @@ def classify_by_sections(by_merchant, sections_config, num_months=12):
         # Convert transaction format for section_engine
         section_txns = []
         for txn in txns:
-            txn_date = datetime.strptime(txn['month'] + '-15', '%Y-%m-%d')
+            # Rebuild the payment date from the month ('YYYY-MM') and the 'MM/DD' date kept
+            # per transaction, so by("day") / by("week") group by the real payment days;
+            # mid-month only when the day is not available.
+            try:
+                txn_date = datetime.strptime(f"{txn['month'][:4]}/{txn['date']}", '%Y/%m/%d')
+            except (KeyError, TypeError, ValueError):
+                txn_date = datetime.strptime(txn['month'] + '-15', '%Y-%m-%d')
             section_txns.append({
                 'amount': txn['amount'],
                 'date': txn_date,
